@@ -17,8 +17,46 @@ def plain_extra(chk, corpus):
     return bad
 
 
+def layer_b(chk, corpus):
+    """model evaluator (PyEval) vs the real exec of the real decompilation, same corpus"""
+    import json
+    seen, datas = set(), []
+    for _, data, _ in corpus:
+        if data not in seen:
+            seen.add(data)
+            datas.append(data)
+    try:
+        mism, st = vmcheck.correspond_pyeval(chk, datas)
+    except RuntimeError as e:           # driver missing: the build obligation has already failed
+        chk.oblige("correspondence (layer B): PyEval vs exec of the decompiled program", False, str(e))
+        return []
+    for k, v in st.items():
+        chk.stats["layerB:" + k] = v
+    chk.rule += (" (c) layer B: the extracted Coq evaluator PyEval on the model's decompilation vs "
+                 "exec(ast.unparse(Pickled.load(data).ast)) under the same inert stand-ins, canonical value + "
+                 "event log compared literally on every corpus program the model accepts; data-only programs "
+                 "additionally re-observe C05_plain_data_eval (PyEval text == reference-VM model text)")
+    chk.oblige(f"correspondence (layer B): model evaluator PyEval vs exec(ast.unparse(Pickled.load(data).ast)) "
+               f"under inert stand-ins, value+events, {st['compared']} programs "
+               f"({st['agree-OK-with-events']} with events; {st['data-only-theorem-instances']} data-only "
+               f"instances of C05_plain_data_eval re-observed)", not mism, json.dumps(mism[:3]))
+    # a disagreement is first examined with the model-free property oracle: a concrete failing input
+    bad = []
+    for m in mism[:50]:
+        data = bytes.fromhex(m["hex"])
+        why = vmcheck.oracle(data, want_value=True)
+        if why and not any(chk.match_known(s) for s in c03.classify(data)):
+            bad.append({"kind": "layerB", "hex": m["hex"], **why})
+    return bad
+
+
+def extras(chk, corpus):
+    return plain_extra(chk, corpus) + layer_b(chk, corpus)
+
+
 def main(tier, seed):
-    return c03.main(tier, seed, pid="C05", want_value=True, extra=plain_extra)
+    return c03.main(tier, seed, pid="C05", want_value=True, extra=extras,
+                    build_targets=("proofs/SimProofs.vo", "proofs/PyEvalProofs.vo"))
 
 
 def replay(path):
